@@ -11,12 +11,16 @@
    - Strings are lists of Unicode scalar values ([str]); `s.len()` is the UTF-8 byte length
      and is modelled by [byte_len].
    - `chrono_english::parse_date_string` is NOT modelled: every input that reaches it yields
-     the distinguished outcome [Unmodelled].
+     the distinguished outcome [Unmodelled] (no claim; in particular chrono_english 0.1.7 itself
+     panics on some such inputs, e.g. "-0.79" or "12:61": "invalid time").
 
-   regex 1.11.1 / regex-syntax 0.8.5 (Cargo.lock): `\d` is Unicode-aware (general category
-   Nd, Unicode 16.0.0), so non-ASCII decimal digits are matched by DATE_REGEX and then make
-   `str::parse::<i32/u32>()` fail, i.e. the following `.unwrap()` panics.  The model
-   reproduces this with the exact Nd table of regex-syntax 0.8.5. *)
+   DATE_REGEX uses the class `[0-9]` (ASCII digits only; it used to be the Unicode-aware `\d`),
+   so every capture is a non-empty run of at most four ASCII digits and the
+   `cap[n].parse().unwrap()` sites can never fail.  The model keeps those unwrap sites (as
+   [unwrap site_* ...]) exactly where the source has them; proofs/DatetimeProofs.v proves that
+   none of them is reachable ([parse_datetime_never_panics]).  The signed day-offset branch
+   no longer unwraps either: a failed `s.parse::<i64>()` is the same Err as the final else
+   branch. *)
 From Coq Require Import String ZArith NArith List Lia Bool.
 From FS Require Import lib.Str lib.Res lib.Civil.
 Import ListNotations.
@@ -26,23 +30,9 @@ Open Scope Z_scope.
 (* Characters                                                                *)
 (* ------------------------------------------------------------------------- *)
 
-(* regex-syntax-0.8.5/src/unicode_tables/perl_decimal.rs, DECIMAL_NUMBER, minus ('0','9') *)
-Definition nd_nonascii : list (N * N) :=
-  [(1632,1641); (1776,1785); (1984,1993); (2406,2415); (2534,2543); (2662,2671);
-   (2790,2799); (2918,2927); (3046,3055); (3174,3183); (3302,3311); (3430,3439); (3558,3567);
-   (3664,3673); (3792,3801); (3872,3881); (4160,4169); (4240,4249); (6112,6121); (6160,6169);
-   (6470,6479); (6608,6617); (6784,6793); (6800,6809); (6992,7001); (7088,7097); (7232,7241);
-   (7248,7257); (42528,42537); (43216,43225); (43264,43273); (43472,43481); (43504,43513);
-   (43600,43609); (44016,44025); (65296,65305); (66720,66729); (68912,68921); (68928,68937);
-   (69734,69743); (69872,69881); (69942,69951); (70096,70105); (70384,70393); (70736,70745);
-   (70864,70873); (71248,71257); (71360,71369); (71376,71395); (71472,71481); (71904,71913);
-   (72016,72025); (72688,72697); (72784,72793); (73040,73049); (73120,73129); (73552,73561);
-   (90416,90425); (92768,92777); (92864,92873); (93008,93017); (93552,93561); (118000,118009);
-   (120782,120831); (123200,123209); (123632,123641); (124144,124153); (124401,124410);
-   (125264,125273); (130032,130041)]%N.
-
-(* `\d` of the regex crate in its default (Unicode) mode *)
-Definition is_nd (c : N) : bool := is_digit c.     (* the class [0-9] of DATE_REGEX (was \d before the fix) *)
+(* the class `[0-9]` of DATE_REGEX: ASCII digits only (non-ASCII decimal digits such as
+   ARABIC-INDIC U+0660.. are NOT matched) *)
+Definition is_nd (c : N) : bool := is_digit c.
 
 (* '-' = 45, ':' = 58, ' ' = 32, '+' = 43 *)
 Definition is_sep (c : N) : bool := ((c =? 45) || (c =? 58))%N.
@@ -54,13 +44,14 @@ Fixpoint byte_len (l : str) : Z :=
 
 (* ------------------------------------------------------------------------- *)
 (* DATE_REGEX scanner                                                        *)
-(*   (\d{4})(-|:)(\d{1,2})(-|:)(\d{1,2}) ?(\d{1,2})?:?(\d{1,2})?:?(\d{1,2})?   *)
+(*   ([0-9]{4})(-|:)([0-9]{1,2})(-|:)([0-9]{1,2})                            *)
+(*      ?([0-9]{1,2})?:?([0-9]{1,2})?:?([0-9]{1,2})?                         *)
 (* `Regex::captures` is an UNANCHORED leftmost-first search.                 *)
 (*                                                                           *)
 (* Why a deterministic scanner is equivalent (no deviation intended):        *)
-(*  - at a fixed start position, \d{4} has a single way to match; the next   *)
-(*    character must be a separator (a 5th digit is not a separator).        *)
-(*  - \d{1,2} (month) is greedy; if the 2-digit choice fails because what    *)
+(*  - at a fixed start position, [0-9]{4} has a single way to match; the     *)
+(*    next character must be a separator (a 5th digit is not a separator).   *)
+(*  - [0-9]{1,2} (month) is greedy; if the 2-digit choice fails because what *)
 (*    follows is not (separator, digit), the 1-digit choice fails too, since *)
 (*    it would need the 2nd digit to be a separator.  So: take as many digits*)
 (*    as possible (<= 2), then require a separator -- is exact.              *)
@@ -79,7 +70,7 @@ Record caps : Type := mkCaps {
   c_hour : option str; c_min : option str; c_sec : option str   (* groups 6, 7, 8 *)
 }.
 
-(* greedy run of at most n `\d` characters: (run, rest) *)
+(* greedy run of at most n `[0-9]` characters: (run, rest) *)
 Fixpoint take_digits (n : nat) (l : str) : str * str :=
   match n, l with
   | S n', c :: r =>
@@ -91,12 +82,12 @@ Fixpoint take_digits (n : nat) (l : str) : str * str :=
 Definition opt_char (c : N) (l : str) : str :=
   match l with x :: r => if (x =? c)%N then r else l | [] => l end.
 
-(* `(\d{1,2})?` greedy: the group participates iff at least one digit is present *)
+(* `([0-9]{1,2})?` greedy: the group participates iff at least one digit is present *)
 Definition opt_group (l : str) : option str * str :=
   let '(ds, rest) := take_digits 2 l in
   (match ds with [] => None | _ => Some ds end, rest).
 
-(* ` ?(\d{1,2})?:?(\d{1,2})?:?(\d{1,2})?` *)
+(* ` ?([0-9]{1,2})?:?([0-9]{1,2})?:?([0-9]{1,2})?` *)
 Definition scan_time (l : str) : option str * option str * option str :=
   let '(h, r1) := opt_group (opt_char 32 l) in
   let '(mi, r2) := opt_group (opt_char 58 r1) in
@@ -150,7 +141,7 @@ Definition parse_dec (l : str) : option Z :=
   match l with [] => None | _ => parse_dec_acc 0 l end.
 
 (* s.parse::<i64>() : optional sign, then at least one ASCII digit.  Only called on strings
-   of fewer than 5 bytes, so i64 overflow is unreachable and not modelled. *)
+   of fewer than 5 bytes, so i64 overflow is unreachable and not modelled; [None] = Err. *)
 Definition parse_i64 (l : str) : option Z :=
   match l with
   | 43%N :: r => parse_dec r
@@ -177,10 +168,6 @@ Definition site_day : str := Eval vm_compute in s "datetime.rs:32 cap[5].parse()
 Definition site_hour : str := Eval vm_compute in s "datetime.rs:38 parse().unwrap()".
 Definition site_min : str := Eval vm_compute in s "datetime.rs:51 parse().unwrap()".
 Definition site_sec : str := Eval vm_compute in s "datetime.rs:64 parse().unwrap()".
-Definition site_with_hour : str := Eval vm_compute in s "datetime.rs:78/86 with_hour().unwrap()".
-Definition site_with_minute : str := Eval vm_compute in s "datetime.rs:80/88 with_minute().unwrap()".
-Definition site_with_second : str := Eval vm_compute in s "datetime.rs:82/90 with_second().unwrap()".
-Definition site_days : str := Eval vm_compute in s "datetime.rs:122 s.parse::<i64>().unwrap()".
 
 Lemma lit_today_eq : lit_today = s "today". Proof. reflexivity. Qed.
 Lemma lit_yesterday_eq : lit_yesterday = s "yesterday". Proof. reflexivity. Qed.
@@ -232,6 +219,10 @@ Definition parse_datetime (now : Z) (x : str) : dtres :=
     | None =>
         if 5 <=? byte_len x then Unmodelled     (* chrono_english::parse_date_string *)
         else if (2 <=? byte_len x) && (starts_with [43%N] x || starts_with [45%N] x) then
+          (* s.parse::<i64>().ok().and_then(Duration::try_days).and_then(checked_add_signed):
+             at most 4 bytes, so |n| <= 999: try_days cannot fail, and today + n is assumed to
+             be inside chrono's NaiveDate range (years -262143..262142).  A parse failure is
+             the same Err as the final else branch (it used to be an unwrap). *)
           match parse_i64 x with
           | Some n => Det (Ok (day_interval (now + n)))
           | None => Det (Exit2 (msg_parse ++ x))
@@ -343,12 +334,17 @@ Example ex_min60 : parse_datetime 0 (s "2023-12-11 10:60") = Det (Exit2 (msg_par
 Proof. vm_compute. reflexivity. Qed.
 Example ex_sec60 : parse_datetime 0 (s "2023-12-11 10:59:60") = Det (Exit2 (msg_parse ++ s "2023-12-11 10:59:60")).
 Proof. vm_compute. reflexivity. Qed.
-(* ARABIC-INDIC digits U+0660.. are not matched by [0-9] (they were by \d, and then made parse::<i32>() panic) *)
+(* ARABIC-INDIC digits U+0660.. are not matched by [0-9]: no date is found; the text is
+   20 bytes long, so it goes to chrono_english (the real code answers Err) *)
 Example ex_unicode_digits :
   parse_datetime 0 ([1634;1632;1634;1635;45;1633;1634;45;1633;1633]%N) = Unmodelled.
 Proof. vm_compute. reflexivity. Qed.
+(* an ARABIC-INDIC digit after a date is ordinary trailing text: the hour group is absent *)
 Example ex_unicode_hour :
   parse_datetime 0 (s "2023-12-11 " ++ [1633]%N) = parse_datetime 0 (s "2023-12-11").
+Proof. vm_compute. reflexivity. Qed.
+(* a short text of ARABIC-INDIC digits (2 bytes each): Err *)
+Example ex_unicode_short : parse_datetime 0 [1633;1634]%N = Det (Exit2 (msg_parse ++ [1633;1634]%N)).
 Proof. vm_compute. reflexivity. Qed.
 Example ex_unmodelled : parse_datetime 0 (s "2 days ago 00:00") = Unmodelled.
 Proof. vm_compute. reflexivity. Qed.
@@ -356,9 +352,13 @@ Example ex_short_err : parse_datetime 0 (s "abc") = Det (Exit2 (msg_parse ++ s "
 Proof. vm_compute. reflexivity. Qed.
 Example ex_minus2 : parse_datetime 100 (s "-2") = Det (Ok (day_interval 98)).
 Proof. vm_compute. reflexivity. Qed.
-Example ex_plus_bad : parse_datetime 100 (s "+a") = Det (Exit2 (msg_parse ++ s "+a")).
-Proof. vm_compute. reflexivity. Qed.
-(* '+' 'e-acute' is 3 bytes: reaches the i64 parse, which fails; three e-acute are 6 bytes: chrono_english *)
+(* a short signed non-number is an Err (it used to be a panic) *)
+Example ex_plus_bad : parse_datetime 100 (s "+a") = Det (Exit2 (msg_parse ++ s "+a"))
+  /\ parse_datetime 100 (s "-x") = Det (Exit2 (msg_parse ++ s "-x"))
+  /\ parse_datetime 100 (s "+1.5") = Det (Exit2 (msg_parse ++ s "+1.5"))
+  /\ parse_datetime 100 (s "--1") = Det (Exit2 (msg_parse ++ s "--1")).
+Proof. vm_compute. repeat split; reflexivity. Qed.
+(* '+' 'e-acute' is 3 bytes: reaches the i64 parse, Err; three e-acute are 6 bytes: chrono_english *)
 Example ex_bytes : parse_datetime 100 [43;233]%N = Det (Exit2 (msg_parse ++ [43;233]%N))
   /\ parse_datetime 100 [233;233;233]%N = Unmodelled.
 Proof. vm_compute. split; reflexivity. Qed.
